@@ -374,6 +374,7 @@ SHAPES = {
     'escape': [('app', 'lo', 5), ('bool', 'lo', 0), ('ctx', 'hi', 1)],
     'ext': [('open', 'hi', 0), ('ctx', 'hi', 0), ('close', 'hi', 0), ('app', 'lo', 2)],
 }
+FILLER = [0x2E, 0x19, 0xFE, 0x65, 0x0F]
 CLS_OF = {'app': APP, 'bool': APP, 'ctx': CTX, 'open': OPEN, 'close': CLOSE}
 
 
@@ -384,7 +385,7 @@ CLS_OF = {'app': APP, 'bool': APP, 'ctx': CTX, 'open': OPEN, 'close': CLOSE}
              "position (enumerated through a symbolic index); same oracle as decode_total including the "
              "reference tokenizer",
       outside="other shapes; more than one edit")
-def decode_mutated(d, shape, op):
+def decode_mutated(d, shape, op, symdata='all', positions=None):
     stream = []
     for i, (kind, ncls, dlen) in enumerate(SHAPES[shape]):
         if kind == 'bool':
@@ -393,19 +394,24 @@ def decode_mutated(d, shape, op):
         num = draw_number(d, ncls, 'num%d' % i)
         if kind == 'app':
             d.assume(num != 1)
-        raw = d.bytes(dlen, dlen, 'data%d' % i) if dlen else b''
-        stream = stream + R.header(CLS_OF[kind], num, dlen) + [raw[j] for j in range(dlen)]
+        # content: symbolic octets, or (symdata='first') one symbolic octet followed by
+        # concrete octets that read as tag headers once the stream is out of step
+        nsym = dlen if symdata == 'all' else (min(dlen, 1) if symdata == 'first' else 0)
+        raw = d.bytes(nsym, nsym, 'data%d' % i) if nsym else b''
+        body = [raw[j] for j in range(nsym)] + [FILLER[(i + j) % len(FILLER)] for j in range(nsym, dlen)]
+        stream = stream + R.header(CLS_OF[kind], num, dlen) + body
     size = len(stream)
+    where = list(range(size + 1 if op == 'insert' else size))
+    if positions is not None:
+        where = [w for w in where if positions[0] <= w < positions[1]]
+    pos = d.pick(where, 'pos')
     if op == 'insert':
-        pos = d.index(size + 1, 'pos')
         bad = stream[:pos] + [d.int(0, 255, 'x')] + stream[pos:]
     elif op == 'replace':
-        pos = d.index(size, 'pos')
         x = d.int(0, 255, 'x')
         d.assume(x != stream[pos])
         bad = stream[:pos] + [x] + stream[pos + 1:]
     else:
-        pos = d.index(size, 'pos')
         bad = stream[:pos] + stream[pos + 1:]
     d.note(pos=pos, op=op)
     check_stream(d, bytes(bad), size + 1)
